@@ -30,7 +30,7 @@ func sideOfName(name string) string {
 
 func checkC14(r *Run) propMeta {
 	meta := propMeta{Level: "other",
-		Explanation: "Decides a thin structural necessary condition of container agreement: (R1) direction exhaustiveness — every branch on a graph.Direction value in package container distinguishes outbound, inbound and both: a switch has both single-direction cases plus an explicit Both case or a default, and the Both/default branch touches both adjacency sides (or delegates to a direction-aware helper that receives the queried node); a two-way `if d == Outbound … else …` in a function that has callers is reported; (R2) role consistency — the Outbound branch reads only out-side storage (outbound / outOffsets,outAdj / startIndex, and the edge's End as the far endpoint), the Inbound branch the mirror set; builders store `end` under `start` on the out side and `start` under `end` on the in side; closures that fill one side's arrays do not touch the other side's. (R4) query-side read-only — no function reachable from a function that takes a graph.Direction (or from NumNodes/EachNode/EachAdjacentNode) calls a mutating bitmap method (Or/And/AndNot/Xor/Add/Remove/CheckedAdd/Clear) on a bitmap that is a struct field or an element of a map/slice field, directly or through a package function that returns one, without Clone(): such a call makes later answers depend on the query history. The same origin analysis covers a stored bitmap passed to a helper that mutates its parameter, and slices: no append to, sort of, copy into or element write through a slice that aliases a container array (a CSR row is a range of one shared array). NOT decided: BFS distances, prefix sums, ID normalisation, segment serialisation, reachability — value-level.",
+		Explanation: "Decides a thin structural necessary condition of container agreement: (R1) direction exhaustiveness — every branch on a graph.Direction value in package container distinguishes outbound, inbound and both: a switch has both single-direction cases plus an explicit Both case or a default, and the Both/default branch touches both adjacency sides (or delegates to a direction-aware helper that receives the queried node); a two-way `if d == Outbound … else …` in a function that has callers is reported; (R2) role consistency — the Outbound branch reads only out-side storage (outbound / outOffsets,outAdj / startIndex, and the edge's End as the far endpoint), the Inbound branch the mirror set; builders store `end` under `start` on the out side and `start` under `end` on the in side; closures that fill one side's arrays do not touch the other side's. (R4) query-side read-only — no function reachable from a function that takes a graph.Direction (or from NumNodes/EachNode/EachAdjacentNode) calls a mutating bitmap method (Or/And/AndNot/Xor/Add/Remove/CheckedAdd/Clear) on a bitmap that is a struct field or an element of a map/slice field, directly or through a package function that returns one, without Clone(): such a call makes later answers depend on the query history. The same origin analysis covers a stored bitmap passed to a helper that mutates its parameter, and slices: no append to, sort of, copy into or element write through a slice that aliases a container array (a CSR row is a range of one shared array). (R5) Normalize fills the derived graph's node set from an iteration over the source's nodes; (R6) the CSR builder writes each running-total offset on every iteration. NOT decided: BFS distances, prefix sums, ID normalisation, segment serialisation, reachability — value-level.",
 		Assumptions: []string{"adjacency sides are recognised by the repository's naming (out*/outbound/startIndex vs in*/inbound/endIndex; Edge.End is the far endpoint of an outbound edge)"},
 		TrustedBase: []string{"go/types", "this analyser"}}
 	if err := r.Load("./container/...", "./algo/..."); err != nil {
@@ -236,6 +236,7 @@ func checkC14(r *Run) propMeta {
 	checkStorageAliasing(r, "C14-R4-stored-set-readonly", newAliasAnalysis(r, cg, p), bitmaps, roots)
 	checkInPlaceReuse(r, "C14-R4-stored-set-readonly", p)
 	checkDerivedGraphKeepsNodes(r, p)
+	checkPrefixArraysWrittenEveryIteration(r, p, "C14-R6-prefix-array")
 	r.Floor("C14-R4-stored-set-readonly", 8)
 	r.Floor("C14-R1-direction-exhaustive", 6)
 	r.Floor("C14-R2-role-consistency", 10)
@@ -561,5 +562,85 @@ func checkDerivedGraphKeepsNodes(r *Run, p *packages.Package) {
 	}
 	if n == 0 {
 		r.Undecide("C14-R5: no Normalize method found in package container")
+	}
+}
+
+// checkPrefixArraysWrittenEveryIteration (R6): a CSR row is offsets[i] .. offsets[i+1].  The loop that fills an offsets
+// array by running totals (offsets[i+1] = total) must write the entry on every iteration; a `continue` (or a
+// conditional skip) before the write leaves the entry at zero, and the next vertex's row then starts at 0 and covers
+// the adjacency of every earlier vertex.
+func checkPrefixArraysWrittenEveryIteration(r *Run, p *packages.Package, rule string) {
+	info := p.TypesInfo
+	n := 0
+	for _, f := range p.Syntax {
+		for _, d := range f.Decls {
+			fd, ok := d.(*ast.FuncDecl)
+			if !ok || fd.Body == nil {
+				continue
+			}
+			ast.Inspect(fd.Body, func(x ast.Node) bool {
+				loop, ok := x.(*ast.ForStmt)
+				if !ok || loop.Init == nil {
+					return true
+				}
+				// the loop variable
+				var iv types.Object
+				if as, ok := loop.Init.(*ast.AssignStmt); ok && len(as.Lhs) == 1 {
+					if id, ok := as.Lhs[0].(*ast.Ident); ok {
+						iv = info.Defs[id]
+					}
+				}
+				if iv == nil {
+					return true
+				}
+				// top-level statements of the body: writes X[iv+1] = …
+				for idx, st := range loop.Body.List {
+					as, ok := st.(*ast.AssignStmt)
+					if !ok {
+						continue
+					}
+					for _, l := range as.Lhs {
+						ix, ok := ast.Unparen(l).(*ast.IndexExpr)
+						if !ok {
+							continue
+						}
+						be, ok := ast.Unparen(ix.Index).(*ast.BinaryExpr)
+						if !ok || be.Op != token.ADD {
+							continue
+						}
+						id, ok := ast.Unparen(be.X).(*ast.Ident)
+						if !ok || info.Uses[id] != iv {
+							continue
+						}
+						if tv, has := info.Types[be.Y]; !has || tv.Value == nil || tv.Value.ExactString() != "1" {
+							continue
+						}
+						n++
+						construct := funcDeclName(fd) + ":" + exprString(r.Fset, ix.X) + "[" + iv.Name() + "+1]"
+						skip := token.NoPos
+						for _, before := range loop.Body.List[:idx] {
+							ast.Inspect(before, func(m ast.Node) bool {
+								if _, isLit := m.(*ast.FuncLit); isLit {
+									return false
+								}
+								if br, ok := m.(*ast.BranchStmt); ok && (br.Tok == token.CONTINUE || br.Tok == token.BREAK) && skip == token.NoPos {
+									skip = br.Pos()
+								}
+								return true
+							})
+						}
+						if skip != token.NoPos {
+							r.Fail(rule, construct, skip, "the running-total entry %s[%s+1] is not written on every iteration (a %s precedes it): a skipped vertex leaves its end offset at zero, so the next vertex's row spans the adjacency of every earlier vertex", exprString(r.Fset, ix.X), iv.Name(), "continue/break")
+						} else {
+							r.Pass(rule, construct, as.Pos(), "written on every iteration of the loop")
+						}
+					}
+				}
+				return true
+			})
+		}
+	}
+	if n == 0 {
+		r.Undecide("%s: no running-total offsets loop found in package container (CSRDigraphBuilder.Build confirmed by reading)", rule)
 	}
 }
